@@ -346,7 +346,7 @@ func DefaultCfg(r *rand.Rand, family string, big bool) WorldCfg {
 		if family == "rewards" || family == "full" || family == "genesis" || family == "takerate" {
 			if r.Intn(3) == 0 {
 				a.Rate, a.ChgInt = pick(r, []string{"0.5", "0.9", "1.5"}), pick(r, []int64{2, 3, 7})
-				a.WMin, a.WMax = pick(r, []string{"0", "0.2"}), pick(r, []string{"5", "2"})
+				a.WMin, a.WMax = pick(r, []string{"0", "0.1"}), pick(r, []string{"5", "2"})
 			}
 		}
 		if i == 1 && (family == "power" || family == "full" || family == "takerate" || family == "rewards") && r.Intn(3) == 0 {
